@@ -132,6 +132,9 @@ fn replay(path: &str) -> i32 {
             let mut rng = Rng::for_case(seed, stream, index);
             let mut st = Stats::default();
             let out = match (prop.as_str(), stream) {
+                ("C01", 7) => vharness::checks_tok::c01_reuse_case(&mut rng, &mut st),
+                ("C04", 2) => vharness::checks_tok::c04_reset_case(&mut rng, &mut st),
+                ("C05", 4) => vharness::checks_tok::c05_reset_case(&mut rng, &mut st),
                 ("C06", 1) => vharness::checks_hist::c06_case(&mut rng, &mut st),
                 ("C06", 2) => vharness::checks_hist::c06_general_case(&mut rng, &mut st),
                 ("C07", 3) => vharness::checks_hist::c07_history_case(&mut rng, &mut st),
